@@ -105,6 +105,11 @@ impl Engine for OpSim {
             let mut tx = gen_tx(rng, &world);
             tx.auth_list = None;
             tx.access_list.clear();
+            // the OP Stack has no type-3 transactions and a deposit (type 0x7E) has no blob
+            // fields: a blob-carrying env is outside C33's domain (revm burns its blob fee as
+            // on L1, which is no party of the five-way split) - see DESIGN.md section 0.3
+            tx.blob_hashes.clear();
+            tx.max_fee_per_blob_gas = None;
             // parties of the fee flows are not callees
             if tx.to.is_none() || !world.contracts.contains(&tx.to.unwrap()) && !world.eoas.contains(&tx.to.unwrap()) {
                 tx.to = Some(*rng.pick(&world.contracts));
